@@ -3,6 +3,7 @@
 mod c01;
 mod c02;
 mod c08;
+mod c10;
 mod c19;
 mod c20;
 mod hist;
@@ -25,6 +26,9 @@ pub struct Summary {
 
 fn main() {
     let prop = std::env::args().nth(1).expect("usage: hx-chain <Cxx>");
+    if prop == "C10-child" {
+        c10::child(std::path::Path::new(&std::env::args().nth(2).expect("dir")));
+    }
     if prop == "C08-child" {
         c08::child(std::path::Path::new(&std::env::args().nth(2).expect("dir")));
     }
@@ -53,6 +57,11 @@ fn main() {
             let r = c08::run(seed, thorough, &out, &scratch);
             Summary { viol: r.viol, evaluations: r.evaluations, distinct: r.distinct.len(), stats: r.stats, samples: r.samples,
                 rule: "histories with transactions and competing branches are imported by a child process over an on-disk DB (sequentially, or all blocks delivered asynchronously); a reference run logs every write to the database (transaction commits, write batches: before and after each); for every such point (all of them up to 45 quick / 400 thorough per history, otherwise first/last third plus a sample) the child is aborted there, the parent re-opens the DB, waits for the start-up recovery (InitLoadUnverified), checks the C02 replay consistency of the stored columns and that stored-but-unverified blocks were picked up, redelivers all blocks and compares tip, total difficulty and columns with the run that never crashed. distinct = distinct (history, crash point)" }
+        }
+        "C10" => {
+            let r = c10::run(seed, thorough, &out, &scratch);
+            Summary { viol: r.viol, evaluations: r.evaluations, distinct: r.distinct.len(), stats: r.stats, samples: r.samples,
+                rule: "on-disk nodes with a freezer grow chains through several short epochs (transactions, uncles, short side branches at heights that become frozen); every answer the property lists (block as view and packed, header, body, tx hashes, cellbase, uncles, proposals, extension, every transaction with its location, ancestor lookup, cell status of every output) is recorded for every main-chain block, then one freeze pass runs (hook) and the answers are compared before / after / after a restart; the freezer number is checked against the two-epoch threshold; then the freeze pass runs in a child process that is aborted at every database write and at (a sample of) every freezer file write, the parent re-opens and compares again, runs a further pass and compares again. distinct = distinct (chain, crash point)" }
         }
         "C19" => {
             let r = c19::run(seed, thorough, &out, &scratch);
